@@ -314,6 +314,16 @@ def change_menu(mname, f, level):
                     nb['null'] = False
                     out.append(['ChangeField', mname, name, nb,
                                 INITIALS[t][0], nt])
+    if not rel and level != 'lite' and not a.get('unique') and \
+            t in ('Char', 'Int'):
+        # two attributes in ONE ChangeField: an index change together with
+        # a change that rebuilds the table
+        flip = not a.get('db_index', False)
+        if t == 'Char':
+            cf({'db_index': flip,
+                'max_length': 30 if a.get('max_length') != 30 else 20})
+        elif not a.get('null'):
+            cf({'db_index': flip, 'null': True})
     if not rel:
         if a.get('db_column'):
             cf({'db_column': None})
